@@ -492,6 +492,52 @@ fn scaling<T: Tier, M: MatN<T, N> + InvT<T>, const N: usize>(rep: &mut Report) {
     );
 }
 
+
+/// float tiers: matrices that are *almost* of a special shape. The approximate predicates of the library (`is_identity`,
+/// `is_diagonal`, `is_symmetric`, `is_zero`: ulps comparisons with tolerances up to 1e-6) are the natural guards of a
+/// fast path; a short cut taken on their word is wrong by the part they ignore, which is far above rounding here
+fn nearly_special<T: Tier + Dom<M = Sh>, const N: usize>(shape: usize, di: usize) -> (&'static str, [[T; N]; N]) {
+    let g: [[T; N]; N] = mat_from_r(&alphabet::generic(N * N, 1));
+    let h: [[T; N]; N] = mat_from_r(&alphabet::generic(N * N, 2));
+    let c = |x: f64| num_traits::cast::<f64, T>(x).unwrap();
+    // the part a tolerant predicate ignores: exactly absent, below the scalar epsilon, 2^-30, 2^-22 (times entries of size 0.1..20)
+    let d = [0.0, T::U / 64.0, 2f64.powi(-30), 2f64.powi(-22)][di];
+    let mut m = [[T::zero(); N]; N];
+    let name = ["identity", "diagonal", "symmetric", "scaled identity", "zero"][shape];
+    for cc in 0..N {
+        for r in 0..N {
+            let off = c(d * h[cc][r].f() / 8.0);
+            m[cc][r] = match shape {
+                0 => (if cc == r { T::one() } else { T::zero() }) + off,
+                1 => (if cc == r { g[cc][cc] } else { T::zero() }) + if cc == r { T::zero() } else { off },
+                2 => g[cc.min(r)][cc.max(r)] + if cc < r { off } else { T::zero() },
+                3 => (if cc == r { c(2.5) } else { T::zero() }) + if cc == r { T::zero() } else { off },
+                _ => off,
+            };
+        }
+    }
+    (name, m)
+}
+fn near_special<T: Tier + Dom<M = Sh>, M: MatN<T, N> + InvT<T>, const N: usize>(rep: &mut Report) {
+    rep.cases(
+        &format!("nearly-special/{}", M::NAME),
+        T::NAME,
+        "identity, diagonal, symmetric, scaled identity (zero: not invertible, left out) x {exactly, off by a few roundings, by 2^-30, by 2^-22}: determinant, invert, inverse_transform against the model",
+        4 * 4,
+        Guard::states(16).need("invertible", 8),
+        |i, ctx| {
+            let (name, e) = nearly_special::<T, N>(i / 4, i % 4);
+            ctx.describe(|| format!("{} nearly {} (variant {}): {:?}", M::NAME, name, i % 4, e));
+            ctx.out(&i);
+            judge::<T, M, N>(ctx, e);
+        },
+    );
+}
+fn all_float<T: Tier + Dom<M = Sh>>(rep: &mut Report) {
+    near_special::<T, Matrix2<T>, 2>(rep);
+    near_special::<T, Matrix3<T>, 3>(rep);
+    near_special::<T, Matrix4<T>, 4>(rep);
+}
 fn all<T: Tier>(rep: &mut Report) {
     scaling::<T, Matrix2<T>, 2>(rep);
     scaling::<T, Matrix3<T>, 3>(rep);
@@ -520,5 +566,7 @@ fn main() {
     all::<Ex>(&mut rep);
     all::<f64>(&mut rep);
     all::<f32>(&mut rep);
+    all_float::<f64>(&mut rep);
+    all_float::<f32>(&mut rep);
     std::process::exit(rep.finish());
 }
